@@ -61,6 +61,8 @@ def plan_calls(rng, idl, aliases):
             for rw in raws:
                 calls.append(dict(method="@badparams", target=m[1], raw=rw, flags=0, error=None))
     calls.append(dict(method="Unimpl", flags=0, **{"in": {}}, outs=[{}], error=None))
+    # a oneway call that ends in generated code (the default implementation answers MethodNotImplemented): nothing may be written
+    calls.append(dict(method="Unimpl", flags=2, **{"in": {}}, outs=[{}], error=None))
     calls.append(dict(method="@unknown", flags=0, error=None))
     rng.shuffle(calls)
     return calls
@@ -90,7 +92,10 @@ def expectations(idl, aliases, calls):
         if c["flags"] & 2:
             sent["oneway"] = True
         if mn == "Unimpl":
-            exp.append([dict(sent=sent, err="MethodNotImplemented:%s.Unimpl" % iface)])
+            if c["flags"] & 2:
+                exp.append([dict(sent=sent, recv=[], err="oneway")])
+            else:
+                exp.append([dict(sent=sent, err="MethodNotImplemented:%s.Unimpl" % iface)])
             continue
         hlog.append((mn, bool(c["flags"] & 1), bool(c["flags"] & 2), False, [go_json(ft, c["in"][n], aliases, False) for n, ft in m[3][1]]))
         if c["flags"] & 2:
